@@ -28,6 +28,12 @@
 (*     MemByte(a); on lanes that are not active in a read beat the slave   *)
 (*     drives POISON (AXI only defines the active byte lanes).  Write data *)
 (*     is chosen by the master; the contract compares what was written.    *)
+(*     junk = 1: while the valid of a channel driven by the environment    *)
+(*     (master AW/W/AR, slave B/R) was low its payload lines and `last`    *)
+(*     carried arbitrary bits instead of zeros (junk_cycles such           *)
+(*     channel-cycles, junk_last of them on W/R with last high): AXI       *)
+(*     defines the lines of a channel only under valid, so the transfers   *)
+(*     recorded here - and every clause - are unaffected by them.          *)
 (*                                                                         *)
 (* Clauses (all at interface level, all refer to AxiBurst for addresses):  *)
 (*   AxForwarded  every AW/AR request is forwarded exactly once, in order, *)
@@ -66,10 +72,13 @@ Max(a, b) == IF a > b THEN a ELSE b
 Min(a, b) == IF a < b THEN a ELSE b
 
 (* ----------------------------------------------------------------- request space and classes *)
+(* <<fb, fb>>: AXIConverter between buses of equal width (its third branch: neither AXIUpConverter nor          *)
+(* AXIDownConverter, the interfaces are connected) - every legal burst must pass unchanged.                     *)
 Configs(tier) ==
   IF tier = "thorough"
-  THEN {<<4, 8>>, <<8, 4>>, <<4, 16>>, <<16, 4>>, <<8, 16>>, <<16, 8>>, <<1, 8>>, <<8, 1>>, <<2, 16>>, <<16, 2>>}
-  ELSE {<<4, 8>>, <<8, 4>>, <<4, 16>>, <<16, 4>>, <<1, 8>>, <<8, 1>>}
+  THEN {<<4, 8>>, <<8, 4>>, <<4, 16>>, <<16, 4>>, <<8, 16>>, <<16, 8>>, <<1, 8>>, <<8, 1>>, <<2, 16>>, <<16, 2>>,
+        <<4, 4>>, <<8, 8>>}
+  ELSE {<<4, 8>>, <<8, 4>>, <<4, 16>>, <<16, 4>>, <<1, 8>>, <<8, 1>>, <<4, 4>>}
 
 ShortLens == {0, 1, 2, 3, 4, 7, 8, 15}
 LongLens  == {16, 31, 127, 255}
@@ -96,7 +105,8 @@ Requests(c) == FullRequests(c) \cup NarrowRequests(c)
 (* multiplied length must still be a legal length.                                                 *)
 Class(c, r) ==
   LET fb == c[1]  tb == c[2] IN
-  IF fb < tb
+  IF fb = tb THEN "supported"       \* equal widths: nothing is converted, no request is outside the claimed class
+  ELSE IF fb < tb
   THEN LET ratio == tb \div fb IN
        IF r[3] < Log2(fb) THEN "narrow"
        ELSE IF r[4] = FIXED /\ r[2] > 0 THEN "fixed-multibeat"
@@ -170,6 +180,7 @@ OpsLegal(ops) ==
 EnvLegal ==
   tid > 0 =>
     /\ <<FB, TB>> \in Configs(TIER)
+    /\ K.junk \in {0, 1} /\ K.junk_last <= K.junk_cycles /\ (K.junk = 0 => K.junk_cycles = 0)
     /\ OpsLegal(K.writes) /\ OpsLegal(K.reads)
     (* the master issued what was intended *)
     /\ Len(K.f_aw) <= Len(K.writes) /\ Len(K.f_ar) <= Len(K.reads)
